@@ -16,7 +16,7 @@ from ..core import run_check, CheckerError
 from ..poly import P, normal
 from .. import pysym, shims, panelctx, pycheck, absnp, eigctx
 from ..pysym import Interp, real, integer, Opaque, SymRaise, Obj
-from ..kernel import InArray
+from ..kernel import InArray, user_array
 from ..absnp import AArr
 from . import py_panel
 from .py_panel import build, report
@@ -73,7 +73,7 @@ def fresh(it, geom, changed=None):
         # a fresh object defined directly with the new value
         CHANGES[changed](p)
     size = g['num'] * kw['m'] * kw['n']
-    env = dict(c=InArray('c', shape=(size,)), x=real('xq'), y=real('yq'))
+    env = dict(c=user_array('c', shape=(size,)), x=real('xq'), y=real('yq'))
     return p, env
 
 
